@@ -13,6 +13,10 @@ CONSTANTS
   AsyncApply = FALSE
   MaxPerRequest = 2
   RecursiveRLock = FALSE
+  Kinds = {"Unavailable"}
+  CanceledStops = FALSE
+  StartUnreachable = FALSE
+  DialOnce = FALSE
 INVARIANTS TypeOK InSync NoDeadlock
 PROPERTIES Converges
 CHECK_DEADLOCK FALSE
